@@ -18,7 +18,7 @@ H = yv.H
 REPO = yv.yvbuild.REPO
 WORK = os.path.join(yv.yvbuild.BUILD, "c18")
 
-RULES = '''rule r1 : t1 { meta: m = "x" strings: $a = "abcd" $b = "efgh" condition: any of them }
+RULES = '''rule r1 : t1 { meta: m = "x" strings: $a = "abcd" $b = "efgh" condition: $a or $b }
 rule r2 { condition: filesize == 0 }
 rule r3 : t2 { strings: $c = /x+y/ condition: #c > 1 }
 rule r4 { condition: ext_i == 7 and ext_f > 2.2 and ext_f < 2.8 and ext_b and ext_s == "hello" and filesize > 2 }
